@@ -145,6 +145,76 @@ def lifted_edges(f: Func, edge):
     return out
 
 
+def bool_root(f: Func, l: int):
+    """(root local, polarity): follow single-definition copies and `!` back to the local that actually holds the test result"""
+    pol, seen = True, set()
+    while l not in seen:
+        seen.add(l)
+        ds = f.defs.get(l, [])
+        if len(ds) != 1 or ds[0][0] != "stmt":
+            break
+        rv = ds[0][3]["rv"]
+        if rv["k"] == "use":
+            nl = operand_local(rv["op"])
+            p = rv["op"].get("move") or rv["op"].get("copy")
+            if nl is None or (p and p["p"]):
+                break
+            l = nl
+            continue
+        if rv["k"] == "un" and rv["op"] == "Not":
+            nl = operand_local(rv["x"])
+            if nl is None:
+                break
+            l, pol = nl, not pol
+            continue
+        break
+    return l, pol
+
+
+def consistent_path_exists(f: Func, start: int, target: int, avoid_edges=()):
+    """Is there a path start → target that avoids `avoid_edges` and is BRANCH-CONSISTENT: a bool that is defined once and tested
+    several times (`if a && b {..} else if a {..}`) takes the same arm every time on one path?  (Decisions are forgotten when the
+    path re-enters the block that defines the bool.)"""
+    avoid = set(avoid_edges)
+    defblock = {}
+    stack, seen = [(start, frozenset())], set()
+    while stack:
+        b, dec = stack.pop()
+        if b == target:
+            return True
+        if (b, dec) in seen or len(seen) > 200000:
+            continue
+        seen.add((b, dec))
+        t = f.blocks[b]["term"]
+        decided = None
+        if t["k"] == "switch" and norm(t.get("dty", "")) == "bool":
+            l = operand_local(t["discr"])
+            zero = [x[1] for x in t["targets"] if x[0] == "0"]
+            if l is not None and zero and zero[0] != t["otherwise"]:
+                r, pol = bool_root(f, l)
+                ds = f.defs.get(r, [])
+                if len(ds) == 1:
+                    defblock[r] = ds[0][1]
+                    decided = (r, pol, zero[0])
+        for s_ in f.succ[b]:
+            if (b, s_) in avoid:
+                continue
+            nd = dec
+            if decided is not None:
+                r, pol, z = decided
+                val = (s_ != z)
+                val = val if pol else not val
+                d = dict(dec)
+                if r in d and d[r] != val:
+                    continue
+                d[r] = val
+                nd = frozenset(d.items())
+            if nd:
+                nd = frozenset((r, v) for r, v in nd if defblock.get(r) != s_)
+            stack.append((s_, nd))
+    return False
+
+
 def call_result_edges(f: Func, block: int):
     """Branch edges controlled by the bool result of the call terminating `block`."""
     t = f.blocks[block]["term"]
